@@ -124,6 +124,10 @@ func genC15E2E(t *rapid.T) c15Case {
 	for i := 0; i < 3; i++ {
 		c.Keep = append(c.Keep, rapid.IntRange(0, 20).Draw(t, "keep"))
 	}
+	if rapid.IntRange(0, 7).Draw(t, "writefaults") == 0 {
+		// the runs that build index files see transient write failures of the object store (retried by the code)
+		c.Run.Faults = genWriteFaults(t)
+	}
 	return c
 }
 
@@ -324,12 +328,16 @@ func subsetOf(files []string, keep []int) []string {
 
 func TestC15Index(t *testing.T) {
 	r := ev.Get("C15", "IndexFiles")
-	r.Rule = "rapid: programs with one block-index module (reading the block, or a mapper that skips outputs) and 2..4 filtered modules sharing it (single-key bare/quoted/parenthesised filters and and/or combinations, one filter in three taken from the module's params, different initial blocks, optionally a filtered store) feeding one output mapper; a production request over 1..3 back-filled segments run (1) on an empty cache (index being built by the jobs), (2) on a cache holding only the index files of (1), (3) on a subset of them, (4) with only the outputs of the mapper the index reads (in half of those programs nothing else reads the chain, so the jobs build the index without the block source), (5) on the index files built in (4), each compared with the sequential dev-mode execution, in which every filtered module must have run exactly on the blocks whose own keys satisfy its filter; non-trivial = at least one block skipped and one not skipped, and index files existed"
+	r.Rule = "rapid: programs with one block-index module (reading the block, or a mapper that skips outputs) and 2..4 filtered modules sharing it (single-key bare/quoted/parenthesised filters and and/or combinations, one filter in three taken from the module's params, different initial blocks; in one case in eight the object store fails the first write of up to two cache files per request transiently, which the code retries, optionally a filtered store) feeding one output mapper; a production request over 1..3 back-filled segments run (1) on an empty cache (index being built by the jobs), (2) on a cache holding only the index files of (1), (3) on a subset of them, (4) with only the outputs of the mapper the index reads (in half of those programs nothing else reads the chain, so the jobs build the index without the block source), (5) on the index files built in (4), each compared with the sequential dev-mode execution, in which every filtered module must have run exactly on the blocks whose own keys satisfy its filter; non-trivial = at least one block skipped and one not skipped, and index files existed"
 	rapid.Check(t, func(rt *rapid.T) {
 		c := genC15E2E(rt)
 		r.Begin(c)
 		f, st := checkC15E2E(c)
 		cl := []string{fmt.Sprintf("index-files<=%d", bucketInt(st.indexFiles))}
+		if n := writeFaultsInjected.Swap(0); n > 0 {
+			r.Count("transient-write-failures-injected", int(n))
+			cl = append(cl, "index-files-written-after-a-transient-failure")
+		}
 		if st.fromCached > 0 {
 			cl = append(cl, "index-built-from-cached-upstream-outputs")
 		}
